@@ -602,6 +602,31 @@ def r_arg_names(ck: Checker) -> None:
     ck.need(n >= 500, f"resolved calls found ({n})")
 
 
+def r_analysis_args(ck: Checker) -> None:
+    """the analysis objects every pass builds (UniqueNames, RuleDependency, DomainPredicates) look at the WHOLE program the
+    pass was given and at the declared inputs: all 19 constructions on the tree pass the enclosing function's own parameters"""
+    want = {"UniqueNames": (("prg", 0), ("input_predicates", 1)), "RuleDependency": (("prg", 0),), "DomainPredicates": (("prg", 1),)}
+    n = 0
+    for func in ck.prg.funcs.values():
+        if isinstance(func.node, ast.Lambda):
+            continue
+        params = set(func.params())
+        stored = {x.id for x in ast.walk(func.node) if isinstance(x, ast.Name) and isinstance(x.ctx, ast.Store)}
+        for call in [x for x in ast.walk(func.node) if isinstance(x, ast.Call)]:
+            res = ck.prg.resolve_callee(func, call.func) or ""
+            cname = res.split(":")[-1]
+            if res not in ck.prg.classes or cname not in want:
+                continue
+            n += 1
+            for pname, pos in want[cname]:
+                arg = call.args[pos] if pos < len(call.args) else next((k.value for k in call.keywords if k.arg == pname), None)
+                ok = isinstance(arg, ast.Name) and arg.id in params and arg.id not in stored
+                ck.add(f"{tag(func.module.name)} {func.name}: {cname} is built on the {'program' if pname == 'prg' else 'declared inputs'} the pass was given", ok, func, call,
+                       f"`{short(unparse(call), 80)}`: `{pname}` is `{unparse(arg) if arg is not None else None}`" + ("" if ok else " - not an unmodified parameter of the enclosing function"),
+                       "an analysis of a filtered program (facts left out) misses derivations: domains become too small, 'defined by one rule' becomes true for predicates with facts; a name generator that is not told the declared inputs hands out `__aux_1` although the instance has `__aux_1` facts")
+    ck.need(n >= 15, f"constructions of the analysis objects found ({n})")
+
+
 _EXTRA = module_extra()
 _EXTRA_ONE_SHOT = {**_EXTRA, **{p_: tuple(_EXTRA.get(p_, ())) + ("TranslationMap", "[utils.ast]") for p_ in ("C02", "C12", "C13")}}
 
@@ -615,4 +640,5 @@ RULES = [
     Rule("GEN.one-shot", ("C01",), r_one_shot, extra=_EXTRA_ONE_SHOT),
     Rule("GEN.ctor-wiring", ("C01", "C07"), r_ctor_wiring, extra=_EXTRA),
     Rule("GEN.arg-names", ("C01",), r_arg_names, extra=_EXTRA),
+    Rule("GEN.analysis-args", ("C01", "C07"), r_analysis_args, extra=_EXTRA),
 ]
